@@ -86,11 +86,13 @@ impl Cfg {
 pub struct Ctx {
     calcs: HashMap<Cfg, SmartCalc>,
     pub built: u64,
+    /// per-thread memo for reference observations (e.g. a text on a fresh calculator)
+    pub memo: HashMap<String, String>,
 }
 
 impl Ctx {
     pub fn new() -> Ctx {
-        Ctx { calcs: HashMap::new(), built: 0 }
+        Ctx { calcs: HashMap::new(), built: 0, memo: HashMap::new() }
     }
     /// A long-lived calculator for this configuration (re-used between cases: evaluation
     /// takes `&self`; that re-use is harmless is exactly what C04 checks separately, and every
